@@ -1,3 +1,4 @@
+import re
 from mindsdb_sql.parser.ast.base import ASTNode
 from mindsdb_sql.parser.utils import indent
 
@@ -13,5 +14,9 @@ class Variable(ASTNode):
         return indent(level) + f'Variable(value={repr(self.value)}{alias_str}, is_system_var={repr(self.is_system_var)})'
 
     def get_string(self, *args, **kwargs):
-        return ('@@' if self.is_system_var else '@') + f'{str(self.value)}'
+        value = str(self.value)
+        if not re.fullmatch(r'[a-zA-Z_.$]+', value) and '`' not in value:
+            # names that are not plain words were written quoted
+            value = f'`{value}`'
+        return ('@@' if self.is_system_var else '@') + value
 
